@@ -169,6 +169,8 @@ func (e *Engine) Verify(name string) (*VC, error) {
 		m.Extends = ""
 		spec = &m
 	}
+	WrapInt64 = spec.Flags["int64"] == "wrap"
+	defer func() { WrapInt64 = false }()
 	if spec.Trusted {
 		// assumed contract: nothing is generated; callers rely on it and the evidence lists it
 		tv := e.NewVC(fn, spec)
